@@ -529,6 +529,50 @@ pub fn shaped_dom(rng: &mut StdRng, xml_safe: bool, scale: bool) -> WeakDom {
         SharedString::new(Vec::new()),
     ];
     match if scale { 10 } else { rng.gen_range(0..10) } {
+        10 if rng.gen_bool(0.5) => {
+            // other things that come in hundreds: classes, SharedStrings, properties of one instance, children of
+            // one parent, keypoints, tags, attributes
+            match rng.gen_range(0..6) {
+                0 => {
+                    for i in 0..rng.gen_range(257..300) {
+                        dom.insert(root, InstanceBuilder::new(format!("VerifClass{}", i)).with_name(format!("K{}", i)).with_property("UInt32", Variant::Int32(i)));
+                    }
+                }
+                1 => {
+                    let holder = dom.insert(root, InstanceBuilder::new("Folder").with_name("Many"));
+                    for i in 0..rng.gen_range(257..300) {
+                        let payload = format!("shared payload number {}", i).into_bytes();
+                        dom.insert(holder, InstanceBuilder::new("VerifUnknownA").with_name(format!("H{}", i)).with_property("USharedString", Variant::SharedString(SharedString::new(payload))));
+                    }
+                }
+                2 => {
+                    let mut b = InstanceBuilder::new("VerifUnknownB").with_name("Wide");
+                    for i in 0..rng.gen_range(257..290) {
+                        b.add_property(format!("UInt32_{}", i), Variant::Int32(i * 3 - 400));
+                    }
+                    dom.insert(root, b);
+                }
+                3 => {
+                    let n = rng.gen_range(257..300);
+                    let keypoints = (0..n).map(|i| NumberSequenceKeypoint::new(i as f32 / n as f32, (i % 7) as f32, (i % 3) as f32 * 0.25)).collect();
+                    dom.insert(root, InstanceBuilder::new("VerifUnknownA").with_name("Seq").with_property("UNumberSequence", Variant::NumberSequence(NumberSequence { keypoints })));
+                }
+                4 => {
+                    let mut tags = Tags::new();
+                    for i in 0..rng.gen_range(257..300) {
+                        tags.push(&format!("tag{}", i));
+                    }
+                    dom.insert(root, InstanceBuilder::new("Folder").with_name("Tagged").with_property("Tags", Variant::Tags(tags)));
+                }
+                _ => {
+                    let mut attrs = Attributes::new();
+                    for i in 0..rng.gen_range(257..280) {
+                        attrs.insert(format!("attr{:03}", i), if i % 2 == 0 { Variant::Int32(i) } else { Variant::Bool(i % 3 == 0) });
+                    }
+                    dom.insert(root, InstanceBuilder::new("Folder").with_name("Attributed").with_property("Attributes", Variant::Attributes(attrs)));
+                }
+            }
+        }
         10 => {
             // several hundred instances: referents, parent links and column positions that need more than one byte
             let n = rng.gen_range(260..340);
